@@ -110,7 +110,7 @@ int zzJacobi(const word a[], size_t n, const word b[], size_t m, void* stack)
 	register size_t s;
 	// переменные в stack
 	word* u = (word*)stack;
-	word* v = u + n;
+	word* v = u + MAX2(n, m);
 	stack = v + m;
 	// pre
 	ASSERT(wwIsValid(a, n));
@@ -157,10 +157,10 @@ int zzJacobi(const word a[], size_t n, const word b[], size_t m, void* stack)
 
 size_t zzJacobi_deep(size_t n, size_t m)
 {
-	return O_OF_W(n + m) + 
+	return O_OF_W(MAX2(n, m) + m) + 
 		utilMax(2, 
 			zzMod_deep(n, m), 
-			zzMod_deep(m, n));
+			zzMod_deep(m, m));
 }
 
 /*
@@ -238,6 +238,6 @@ bool_t zzSqrt(word b[], const word a[], size_t n, void* stack)
 size_t zzSqrt_deep(size_t n)
 {
 	const size_t m = (n + 1) / 2;
-	return m + 1 + m + zzDiv_deep(n, m);
+	return O_OF_W(m + 1 + m) + zzDiv_deep(n, m);
 }
 
